@@ -41,6 +41,7 @@ def setup(tier):
 def shards(tier):
     d = BOUNDS[tier]['depth']
     out = [{'first': None}]      # histories of length 1
+    out.append({'long': True})
     for i in range(N_MAIN, len(EVENTS)):
         out.append({'extreme': i})
     for i in range(N_MAIN):
@@ -55,6 +56,11 @@ def run_shard(shard, ctx, tier):
     mod = sys.modules[__name__]
     d = BOUNDS[tier]['depth']
     n = N_MAIN
+    if 'long' in shard:
+        for n in (130, 260, 300):
+            for var in range(len(LONG_VARIANTS)):
+                guarded_check(mod, {'long': n, 'var': var}, ctx)
+        return
     if 'extreme' in shard:
         # histories that contain a hypothesis with a vanishing score: the tiny event at any position of a history of length <= d - 1
         t = shard['extreme']
@@ -233,11 +239,44 @@ def check_boh(ctx):
                         ctx.nontrivial(('boh', hs, vis, lm, vw), 'bag-with-lm-scores')
 
 
+LONG_VARIANTS = ['same', 'one-substitution', 'insertion-at-the-end', 'two-insertions', 'deletion-in-the-middle', 'insertion-at-position-255']
+
+
+def long_history(n, var):
+    """two or three hypotheses of more than 127 / 255 symbols (sizes at which narrow integer types overflow)"""
+    base = ''.join('ab'[(i // 3 + i) % 2] for i in range(n))
+    v = LONG_VARIANTS[var]
+    if v == 'same':
+        other = base
+    elif v == 'one-substitution':
+        other = base[:n // 2] + ('a' if base[n // 2] == 'b' else 'b') + base[n // 2 + 1:]
+    elif v == 'insertion-at-the-end':
+        other = base + 'ab'
+    elif v == 'two-insertions':
+        other = 'b' + base[:n // 3] + 'a' + base[n // 3:]
+    elif v == 'deletion-in-the-middle':
+        other = base[:n // 2] + base[n // 2 + 2:]
+    else:
+        k = min(255, n - 1)
+        other = base[:k] + ('a' if base[k] == 'b' else 'b') + base[k:]
+    return [(base, 1.0), (other, 0.5), (base, 0.5)]
+
+
 def check_case(case, ctx):
     from pero_ocr.decoding.confusion_networks import add_hypothese, normalize_cn, sorted_cn_paths, best_cn_path
     if case.get('boh'):
         return check_boh(ctx)
-    hist = [EVENTS[i] for i in case['hist']]
+    if 'long' in case:
+        hist = long_history(case['long'], case['var'])
+        ctx.tag('hypotheses-longer-than-255')
+        for cut in (2, 3):
+            check_history(dict(case, hist=[0] * cut), ctx, hist[:cut])
+        return
+    check_history(case, ctx, [EVENTS[i] for i in case['hist']])
+
+
+def check_history(case, ctx, hist):
+    from pero_ocr.decoding.confusion_networks import add_hypothese, normalize_cn, sorted_cn_paths, best_cn_path
     cn = START                      # every network is started from the SAME empty list object; it has to stay empty
     for h, s in hist[:-1]:
         cn = add_hypothese(cn, h, s)
@@ -321,7 +360,7 @@ def check_case(case, ctx):
         ctx.executed()
         if got != h:
             ctx.violation('single-hypothesis-reads-back', f'{ID}/best_cn_path/single', f'{h!r} reads back as {got!r}')
-    if len(case['hist']) == 2:
+    if len(case['hist']) == 2 and 'long' not in case:
         ctx.sample({'history': hist, 'network': [{str(k): v for k, v in p.items()} for p in after]})
 
 
@@ -332,5 +371,5 @@ def describe(tier):
                 'every history and on the final network. Non-trivial: an add that inserted >= 2 new positions at once.',
         'bounds': BOUNDS[tier], 'alphabets': {'strings': STRINGS, 'scores': SCORES},
         'assumptions': ['sorted_cn_paths is compared with the full product only when the product has <= 4000 paths (counter reports skips)'],
-        'min_nontrivial': 20, 'required_tags': ['vanishing-score-hypothesis', 'insertion', 'several-insertions-in-one-add', 'bag-with-lm-scores'],
+        'min_nontrivial': 20, 'required_tags': ['hypotheses-longer-than-255', 'vanishing-score-hypothesis', 'insertion', 'several-insertions-in-one-add', 'bag-with-lm-scores'],
     }
